@@ -435,7 +435,7 @@ def jobs(pid, tier, seed):
     out = [{"kind": "directed", "i": i} for i in range(len(DIRECTED))]
     n = 220 if tier == "quick" else 5000
     out += [{"kind": "random", "seed": seed * 1000003 + i, "max_resume": 10 if tier == "quick" else 40} for i in range(n)]
-    out += [{"kind": "random", "seed": seed * 1000003 + 5000000 + i, "max_resume": 10 if tier == "quick" else 40, "life": 1} for i in range(n // 2)]
+    out += [{"kind": "random", "seed": seed * 1000003 + 5000000 + i, "max_resume": 10 if tier == "quick" else 40, "life": 1} for i in range(n)]
     return out
 
 
